@@ -64,6 +64,7 @@ func C10(c *core.Ctx) {
 	defer c10ReassemblyKey(c)
 	defer c10OverheadFresh(c)
 	defer c10RemovalOnlyWhenDone(c)
+	c10InitialFrameSynchronous(c)
 	defer c10HeadersOnEveryFragment(c)
 	// fields of the link service by role, not by name: the reassembly store is the map
 	// field whose values are fragment lists ([][]byte); the cached overhead is the int
@@ -1719,4 +1720,73 @@ func c10OverheadFresh(c *core.Ctx) {
 	}
 	fr := core.MustFollow(set, core.Point{Block: set.Blocks[0], Idx: 0}, isComp, nil)
 	c.Decide(fr.OK, "R10.21", "cached-overhead-follows-the-mtu", c.P.Pos(set.Pos()), "the overhead depends on the MTU and SetOptions recomputes it on every path", "the cached header overhead depends on the transport's MTU (read at "+readsMTU+") but SetOptions does not recompute it on every path (it returns early): after faces/update has changed the MTU and written unchanged options back, fragments are cut for an overhead computed for the old MTU — frames exceed the new MTU")
+}
+
+// c10InitialFrameSynchronous — R10.22 "delivered exactly once": the frame a listener hands
+// to LinkService.Run (the datagram that made it create the face) lies in the listener's
+// receive buffer, which the listener reuses for the next datagram as soon as Run returns.
+// Every implementation of Run uses that parameter before it returns: it is not handed to a
+// `go` statement, captured by a function literal, stored, or sent on a channel without
+// having been copied (copy / append onto fresh storage / bytes.Clone / slices.Clone).
+func c10InitialFrameSynchronous(c *core.Ctx) {
+	p := c.P
+	n := 0
+	for _, fn := range p.FuncsIn(core.ModPath + "/fw/face") {
+		if fn.Name() != "Run" || fn.Signature.Recv() == nil || len(fn.Params) != 2 || fn.Blocks == nil {
+			continue
+		}
+		sl, ok := fn.Params[1].Type().Underlying().(*types.Slice)
+		if !ok {
+			continue
+		}
+		if b, isB := sl.Elem().Underlying().(*types.Basic); !isB || b.Kind() != types.Byte {
+			continue
+		}
+		n++
+		bad := ""
+		seen := map[ssa.Value]bool{}
+		var walk func(v ssa.Value)
+		walk = func(v ssa.Value) {
+			if seen[v] || v.Referrers() == nil {
+				return
+			}
+			seen[v] = true
+			for _, r := range *v.Referrers() {
+				switch x := r.(type) {
+				case *ssa.Go:
+					bad = "handed to a go statement at " + c.Pos(x)
+				case *ssa.Defer:
+					// runs before Run returns
+				case *ssa.MakeClosure:
+					bad = "captured by a function literal at " + c.Pos(x)
+				case *ssa.Send:
+					if x.X == v {
+						bad = "sent on a channel at " + c.Pos(x)
+					}
+				case *ssa.Store:
+					if x.Val == v {
+						if _, local := core.Strip(x.Addr).(*ssa.Alloc); !local {
+							bad = "stored at " + c.Pos(x)
+						} else if al := core.Strip(x.Addr).(*ssa.Alloc); al.Heap {
+							bad = "kept in a variable that a function literal captures, at " + c.Pos(x)
+						}
+					}
+				case *ssa.Slice:
+					walk(x)
+				case *ssa.Phi:
+					walk(x)
+				case *ssa.ChangeType:
+					walk(x)
+				case *ssa.Convert:
+					walk(x)
+				case *ssa.MakeInterface:
+					walk(x)
+				}
+			}
+		}
+		walk(fn.Params[1])
+		c.Funcs[core.FuncName(fn)] = true
+		c.Decide(bad == "", "R10.22", "initial-frame-used-before-run-returns:"+core.FuncName(fn), p.Pos(fn.Pos()), "the initial frame is only used by calls made before Run returns", core.FuncName(fn)+" keeps the initial frame beyond its own return ("+bad+"): the listener that accepted the face reuses the buffer holding it for the next datagram — the first frame of a new face is lost and a later one processed twice")
+	}
+	c.Floor("R10.22", "link services' Run(initial []byte)", n, 2)
 }
